@@ -20,7 +20,7 @@ ID = 'C05'
 LEVEL = 'exploration'
 RULE = ('Valid programs from the typed generator G (plus three helper '
         'declarations: a record type, a SUB and a FUNCTION) x a catalogue of '
-        '90 rule violations (type mismatch in assignment / operator / '
+        '93 rule violations (type mismatch in assignment / operator / '
         'condition / argument / CASE / FOR bound, undefined and duplicate '
         'label, duplicate definition, argument count, array rank, undefined '
         'type / field / procedure, misplaced EXIT / ELSE / ELSEIF / CASE / '
@@ -148,6 +148,12 @@ CATALOGUE = [
     F('operator_mixed_in_chain', ['zzqc5% = 1 + 2 + "a"'], TM, ifline=True),
     F('operator_mixed_in_chain_2', ['zzqc6$ = "a" + "b" + 3 + "c"'], TM,
       ifline=True),
+    F('record_in_comparison_chain', ['DIM zzqr6 AS zzqrec',
+                                     'zzqo7% = zzqr6 < 5 < 7'], TM, at=1),
+    F('record_in_comparison', ['DIM zzqr7 AS zzqrec', 'zzqo8% = zzqr7 = 5'],
+      TM, at=1),
+    F('array_in_comparison', ['DIM zzqn6(2) AS LONG, zzqn7(2) AS LONG',
+                              'zzqo9% = zzqn6 = zzqn7'], TM, at=1),
     # -- argument count
     F('sub_too_few_arguments', ['CALL zzqs(1)'], 'ARGUMENT_COUNT_MISMATCH',
       ifline=True),
